@@ -606,7 +606,17 @@ class Body:
         if k in ('ref', 'rawptr'):
             return self.place_term(rv['place'], stack)
         if k == 'binop':
-            return ('binop', rv['op'], self.operand_term(rv['l'], None, stack), self.operand_term(rv['r'], None, stack))
+            lt = self.operand_term(rv['l'], None, stack)
+            rt = self.operand_term(rv['r'], None, stack)
+            # fold integer literal arithmetic (`4 + 2 + 16`)
+            if rv['op'] in ('Add', 'Sub', 'Mul') and lt is not None and rt is not None and lt[0] == 'const' and rt[0] == 'const' \
+                    and lt[2] is None and rt[2] is None:
+                try:
+                    a, b2 = int(lt[1]), int(rt[1])
+                    return ('const', str({'Add': a + b2, 'Sub': a - b2, 'Mul': a * b2}[rv['op']]), None)
+                except (ValueError, TypeError):
+                    pass
+            return ('binop', rv['op'], lt, rt)
         if k == 'unop':
             if rv['op'] == 'PtrMetadata':
                 return ('len', self.operand_term(rv['o'], None, stack))
